@@ -3,10 +3,12 @@ use crate::Opts;
 use serde_json::Value;
 
 pub mod c08;
+pub mod c10;
 pub mod c12;
 pub mod c13;
 pub mod c14;
 pub mod c15;
+pub mod c17;
 pub mod c19;
 
 pub type ReplayResult = Result<Vec<String>, (Vec<String>, String, String)>;
@@ -14,10 +16,12 @@ pub type ReplayResult = Result<Vec<String>, (Vec<String>, String, String)>;
 pub fn run(prop: &str, opts: &Opts) -> Vec<Report> {
     match prop {
         "C08" => c08::run(opts),
+        "C10" => c10::run(opts),
         "C12" => c12::run(opts),
         "C13" => c13::run(opts),
         "C14" => c14::run(opts),
         "C15" => c15::run(opts),
+        "C17" => c17::run(opts),
         "C19" => c19::run(opts),
         _ => crate::explore::machinery(&format!("unknown property {}", prop)),
     }
@@ -26,10 +30,12 @@ pub fn run(prop: &str, opts: &Opts) -> Vec<Report> {
 pub fn replay(prop: &str, case: &Value) -> ReplayResult {
     match prop {
         "C08" => c08::replay(case),
+        "C10" => c10::replay(case),
         "C12" => c12::replay(case),
         "C13" => c13::replay(case),
         "C14" => c14::replay(case),
         "C15" => c15::replay(case),
+        "C17" => c17::replay(case),
         "C19" => c19::replay(case),
         _ => crate::explore::machinery(&format!("unknown property {}", prop)),
     }
